@@ -400,12 +400,14 @@ func reportCase(run *report.Run, r *Result, v Verdict, neighbourhood bool) {
 }
 
 // witnesses of the open finding (the `decide`d Lean theorems C05_F07b_witness, _default, _zip),
-// replayed on the real code on every run
+// replayed on the real code on every run.  All three are deterministic since 8b400b4: the first one
+// (Accept: application/xml,application/json;q=x on a JSON-only route) is answered application/xml,
+// the registered type that occurs first in the raw header — not produced.
 func Witnesses() map[string]*Case {
 	starQx := []Range{{Media: "*/*", Params: []Param{{Name: "q", Val: "x"}}}}
 	return map[string]*Case{
 		"F07b": {Router: "curly", Produces: []string{"application/json"}, Ranges: []Range{
-			{Media: "application/json", Params: []Param{{Name: "q", Val: "x"}}}, {Media: "application/xml"}}, WS1: 0, WS2: 0},
+			{Media: "application/xml"}, {Media: "application/json", Params: []Param{{Name: "q", Val: "x"}}}}, WS1: 0, WS2: 0},
 		"F07b-default": {Router: "curly", Produces: []string{"application/xml"}, Ranges: starQx, Default: "application/json"},
 		"F07b-zip":     {Router: "curly", Produces: []string{"application/json"}, Ranges: starQx, Default: "application/zip"},
 	}
@@ -438,6 +440,135 @@ func Regressions() []Regression {
 		{ID: "F07-zip", Case: &Case{Router: "curly", Produces: []string{"application/json"}, Absent: true, Default: "application/zip"},
 			Now: Obs{Kind: "ct", CT: "application/json"}, Before: Obs{Kind: "e406"}},
 	}
+}
+
+// OrderRegression is the FORMER first witness of F07b (Lean: C05_F07b_order_fixed): Accept:
+// application/json;q=x,application/xml on a JSON-only route.  Still inside the class F07b, but the
+// raw-header lookup of accessorAt — which answered application/json, application/xml or
+// application/x in Go map iteration order before 8b400b4, dispatches of one request differing — now
+// answers with the registered type that occurs first in the header: application/json, produced,
+// every time.
+func OrderRegression() Regression {
+	return Regression{ID: "F07b-order", Case: &Case{Router: "curly", Produces: []string{"application/json"}, Ranges: []Range{
+		{Media: "application/json", Params: []Param{{Name: "q", Val: "x"}}}, {Media: "application/xml"}}, WS1: 0, WS2: 0},
+		Now: Obs{Kind: "ct", CT: "application/json"}, Before: Obs{Kind: "ct", CT: "application/xml"}}
+}
+
+// OrderRegressionLines: the line with the answers demanded today, a line with a not-produced answer
+// as the unrepaired code could give it, and a line on which the dispatches differ; with the spec
+// bit each must get.
+func OrderRegressionLines() (lines []string, expect []int) {
+	g := OrderRegression()
+	mixed := rep(g.Now)
+	mixed[1] = g.Before
+	return []string{g.Case.LineReg(0, rep(g.Now), rep(g.Now), RecordedRegistry), g.Case.LineReg(1, rep(g.Before), rep(g.Before), RecordedRegistry),
+		g.Case.LineReg(2, mixed, rep(g.Now), RecordedRegistry)}, []int{1, 0, 0}
+}
+
+// WriteOrderRegressionFile (re)creates <dir>/F07b-order.json (VERIF_C05_WRITE_REPLAYS=<dir> bin/check C05).
+func WriteOrderRegressionFile(dir string) error {
+	Setup()
+	g := OrderRegression()
+	r, err := One(g.Case)
+	if err != nil {
+		return err
+	}
+	if v := r.Judge(); v.Kind != "" {
+		return fmt.Errorf("regression %s fails on the real code: %s %s", g.ID, v.Kind, v.What)
+	}
+	lines, expect := OrderRegressionLines()
+	ans, err := drv.Run(lines)
+	if err != nil {
+		return err
+	}
+	var f ReplayFile
+	f.Property, f.Finding, f.Status, f.Theorem = "C05", "F07b", "open; its map-iteration-order half fixed 8b400b4", "Restful.Props.C05_F07b_order_fixed"
+	f.Expect = "PASS: line 0 carries the answers the real code gives today (application/json on every dispatch: spec C05 = 1, the model agrees); line 1 an answer the unrepaired code could give (application/xml, not produced: spec C05 = 0); line 2 dispatches that differ (spec C05 = 0); the check re-executes the case on the real code on every run (22 times 6 dispatches) and reports a VIOLATION if it is not answered application/json every time"
+	f.ExpectSpec = expect
+	f.Violation.Kind = "regression"
+	f.Violation.What = "former first witness of F07b (Accept: application/json;q=x,application/xml on a JSON-only route: accessorAt(<raw header>) answered with any registered key that is a substring of the header, in map iteration order), repaired by 8b400b4 as far as the order is concerned; kept as a regression that must pass"
+	f.Violation.Case = lines
+	h := r.Human()
+	h["regression"] = g.ID
+	h["answered_before_the_repair"] = "one of application/json, application/xml, application/x per dispatch (map iteration order)"
+	f.Violation.Human = h
+	f.Violation.Model = ans[0]
+	f.Violation.Real = fmt.Sprint(h["real"])
+	b, _ := json.MarshalIndent(f, "", " ")
+	return os.WriteFile(filepath.Join(dir, "F07b-order.json"), b, 0o644)
+}
+
+// checkOrderRegression: the former first witness of F07b must be answered application/json on
+// every dispatch of 22 runs (a failure is an ordinary violation), the predicate must still reject
+// what the unrepaired code could answer, and the committed replays/F07b-order.json must say the same.
+func checkOrderRegression(run *report.Run) error {
+	g := OrderRegression()
+	failed := false
+	for t := 0; t < 22 && !failed; t++ {
+		r, err := One(g.Case)
+		if err != nil {
+			return err
+		}
+		if err := r.CrossCheck(); err != nil {
+			return err
+		}
+		run.Evaluations++
+		if !r.Class["F07b"] {
+			return fmt.Errorf("regression %s is not in the class F07b", g.ID)
+		}
+		v := r.Judge()
+		if v.Kind == "" || v.Kind == "known" {
+			v = Verdict{}
+			for _, o := range append(append([]Obs{}, r.Real...), r.RealV...) {
+				if o.Kind != g.Now.Kind || o.CT != g.Now.CT {
+					v = Verdict{Kind: "counterexample", What: fmt.Sprintf("regression %s (repaired by 8b400b4) is answered %s; the registered type that occurs first in the Accept value is %s", g.ID, o, g.Now)}
+				}
+			}
+		}
+		if v.Kind != "" {
+			failed = true
+			kind := v.Kind
+			if kind != "correspondence" {
+				kind = "counterexample"
+			}
+			w := r.violation(kind, fmt.Sprintf("regression of the order half of F07b (8b400b4, Accept %q on a route producing %v, run %d of 22): %s", g.Case.Accept(), g.Case.Produces, t+1, v.What))
+			w.Theorem = "Restful.Props.C05_F07b_order_fixed, C05_function"
+			run.AddViolation(w)
+			run.Count("regression-" + g.ID + "-FAILS")
+		}
+	}
+	if !failed {
+		run.Count("regression-" + g.ID + "-passes")
+	}
+	lines, expect := OrderRegressionLines()
+	got, err := specBits(lines)
+	if err != nil {
+		return err
+	}
+	for i := range lines {
+		if got[i] != expect[i] {
+			return fmt.Errorf("Spec.c05Holds = %d, expected %d, on the recorded answers of the regression %s: %s", got[i], expect[i], g.ID, lines[i])
+		}
+	}
+	b, err := os.ReadFile(filepath.Join(report.Root, "replays", "F07b-order.json"))
+	if err != nil {
+		run.Count("replays/F07b-order.json:absent")
+		return nil
+	}
+	var f ReplayFile
+	if err := json.Unmarshal(b, &f); err != nil {
+		return fmt.Errorf("replays/F07b-order.json: %v", err)
+	}
+	if len(f.Violation.Case) != len(lines) || len(f.ExpectSpec) != len(lines) {
+		return fmt.Errorf("replays/F07b-order.json is not the regression record the check runs: regenerate it with VERIF_C05_WRITE_REPLAYS=<dir> bin/check C05")
+	}
+	for i, l := range f.Violation.Case {
+		if l != lines[i] || f.ExpectSpec[i] != expect[i] {
+			return fmt.Errorf("replays/F07b-order.json line %d is not the regression the check runs: regenerate it with VERIF_C05_WRITE_REPLAYS=<dir> bin/check C05", i)
+		}
+	}
+	run.Count("replays/F07b-order.json:replayed-as-regression")
+	return nil
 }
 
 // ReplayFile is the committed record of the regressions (written by cmd/mimewitness).
@@ -571,8 +702,8 @@ func checkRegressions(run *report.Run) error {
 }
 
 // CheckTracePurity (C19): content negotiation answers the same with trace logging on and off. Cases
-// whose answer may legitimately vary between dispatches (the open finding F07b: map iteration order)
-// are recognised by the model's answer being a set of more than one writer, and skipped.
+// of the class F07b are compared like all others since 8b400b4 (their answer no longer depends on map
+// iteration order: C05_function), and counted.
 func CheckTracePurity(run *report.Run, n int) error {
 	Setup()
 	base := rng.New(run.Seed*1000003 + 91)
@@ -587,8 +718,7 @@ func CheckTracePurity(run *report.Run, n int) error {
 		run.TracesValidated++
 		run.Count("negotiation:traced-replays")
 		if ClassF07b(c.Accept(), c.Produces) {
-			run.Count("negotiation:traced-replays:skipped(F07b class: answer depends on map iteration order)")
-			continue
+			run.Count("negotiation:traced-replays:in-class-F07b(compared like all others)")
 		}
 		if off[0].Kind == "ct" {
 			run.Distinct["mime-trace|"+c.Signature()] = true
@@ -747,6 +877,10 @@ func Check(run *report.Run, n int) error {
 	if err := checkRegressions(run); err != nil {
 		return err
 	}
+	// 1a'. the former first witness of F07b (its answer depended on map iteration order): must pass
+	if err := checkOrderRegression(run); err != nil {
+		return err
+	}
 	// 1b. witnesses of the open finding: still failing ⇒ counted as known; no longer failing ⇒ silent
 	wit := Witnesses()
 	var wids []string
@@ -760,11 +894,7 @@ func Check(run *report.Run, n int) error {
 		if !Open[id] {
 			continue
 		}
-		// the first F07b witness depends on map iteration order: dispatch it until a non-produced type or two different answers show up (at most 22×6 times)
-		tries := 1
-		if wid == "F07b" {
-			tries = 22
-		}
+		tries := 1 // every witness is deterministic since 8b400b4
 		for t := 0; t < tries; t++ {
 			r, err := One(w)
 			if err != nil {
@@ -845,7 +975,7 @@ func CheckHistoryPurity(run *report.Run, n int) error {
 			run.TracesValidated++
 			run.Count("negotiation:history-replays")
 			if ClassF07b(c.Accept(), c.Produces) {
-				continue // the answer may vary between dispatches by itself (open finding F07b)
+				run.Count("negotiation:history-replays:in-class-F07b(compared like all others)")
 			}
 			if again != first && bad < 3 {
 				bad++
